@@ -142,6 +142,31 @@ def oracle_case(case):
         name = w[0]
         d = parse_impl(impl)
         bad = []
+        if name == "runloop":
+            # the ResourceRunner thread: it must never cycle on after a fault (unless the policy is
+            # restart), and must end in Faulted with the safe image delivered when the decision says so
+            evs = [] if d["ev"] == "-" else d["ev"].split(",")
+            faults = [i for i, ev in enumerate(evs) if ev.startswith("F:")]
+            if d["state"] == "Faulted":
+                e = d["err"]
+                if e == "-":
+                    bad.append("thread Faulted without last_error")
+                elif e != "ResourceFaulted":
+                    if not evs or evs[-1] != "F:" + e:
+                        bad.append("thread went on after the fault it reported")
+                    applies = (wd in ("halt", "safe")) if e == "WatchdogTimeout" else (policy == "safe")
+                    if applies:
+                        imgs = [ev.split(":", 1)[1] for ev in evs[-1 - ndrv:-1] if ev.startswith("w")]
+                        names = [ev.split(":", 1)[0] for ev in evs[-1 - ndrv:-1]]
+                        if names != [f"w{i}" for i in range(ndrv)] or len(set(imgs)) > 1:
+                            bad.append("safe image not delivered to every driver before the thread reported the fault")
+            elif d["err"] != "-":
+                bad.append("thread not Faulted although it recorded an error")
+            if policy != "restart" and faults and faults[0] != len(evs) - 1:
+                bad.append("cycles executed after a fault without restart policy")
+            for clause in bad:
+                yield k, op, impl, clause
+            continue
         pre_faulted = prev is not None and prev["f"] == "1"
         if name == "policy":
             policy = w[1]
